@@ -403,6 +403,25 @@ pub fn sites(thorough: bool) -> Vec<Site> {
         }),
         Box::new(|b, _| walk_ok(&tables::topo::Viot, b)),
     );
+    add(
+        "VIOT node count reached with endpoint nodes (2-byte count: one IOMMU + n endpoints)",
+        65_534,
+        &[65_535, 65_536, 70_000],
+        false,
+        Box::new(|n| {
+            let mut t = viot::VIOT::new(c().oem_id(), c().oem_table_id(), c().oem_rev());
+            let h = t.add_virtio_mmio_iommu(viot::VirtIoMmioIommu::new(0x1000));
+            for i in 0..n {
+                if i % 2 == 0 {
+                    t.add_mmio_endpoint(viot::MmioEndpoint::new(i as u32, 0x2000 + i, &h));
+                } else {
+                    t.add_pci_range(viot::PciRange::new(viot::PciDevice::new(0, 0, 0, 0), viot::PciDevice::new(0, 1, 0, 0), &h));
+                }
+            }
+            ser(&t)
+        }),
+        Box::new(|b, _| walk_ok(&tables::topo::Viot, b)),
+    );
     // ---- SLIT: localities^2 in 32-bit arithmetic (allocation guarded: only small accepted sizes are materialised)
     add(
         "SLIT localities (matrix size localities^2 in 32 bits)",
